@@ -146,9 +146,23 @@ def szSliceHdr : Nat := 24
 /-- `NewCell()`: the Cell struct and the 128-byte buffer of `NewBitString(1023)` -/
 def szCell : Nat := 112 + 128
 
+/-- the six facts the magic and the flag byte determine: hasIdx, hasCrc, hasCache, flags, sizeBytes, hasRootList -/
+structure Kind where
+  hasIdx : Bool
+  hasCrc : Bool
+  hasCache : Bool
+  flags : Nat
+  sizeBytes : Nat
+  hasRootList : Bool
+  deriving Repr, DecidableEq, Inhabited
+
+def Kind.ofTuple : Bool × Bool × Bool × Nat × Nat × Bool → Kind
+  | (a, b, c, d, e, f) => ⟨a, b, c, d, e, f⟩
+
 open M in
-/-- boc/boc.go parseBocHeader (repaired version) -/
-def parseHeader (boc0 : Bytes) : M Header := do
+/-- parseBocHeader, part 1: length test, checksum range, magic and flag byte.
+Returns the kind, the bytes covered by the checksum and the rest after the flag byte. -/
+def parsePrefix (boc0 : Bytes) : M (Kind × Bytes × Bytes) := do
   if lenLt boc0 5 then fail "not enough bytes for magic prefix" else
   -- checkSum := crc32.Checksum(boc[0:len(boc)-4], crcTable)
   let body ← lift (sliceTo boc0 (boc0.length - 4))
@@ -157,8 +171,22 @@ def parseHeader (boc0 : Bytes) : M Header := do
   let fb ← lift (head boc)
   match headerKind pre fb with
   | none => fail "unknown magic prefix"
-  | some (hasIdx, hasCrc, hasCache, flags, sizeBytes, hasRootList) =>
-  let boc ← lift (sliceFrom boc 1)
+  | some k =>
+    let boc ← lift (sliceFrom boc 1)
+    pure (Kind.ofTuple k, body, boc)
+
+/-- the counters of the header -/
+structure Counters where
+  offsetBytes : Nat
+  cellsCount : Nat
+  rootsCount : Nat
+  absentNum : Nat
+  totCellsSize : Nat
+  deriving Repr, DecidableEq, Inhabited
+
+open M in
+/-- parseBocHeader, part 2: size and off_bytes tests, the four counters, the two plausibility tests on them -/
+def parseCounters (sizeBytes : Nat) (boc : Bytes) : M (Counters × Bytes) := do
   if sizeBytes < 1 ∨ sizeBytes > 4 then fail "invalid size of cell references" else
   if lenLt boc 1 then fail "not enough bytes for encoding cells counters" else
   let ob ← lift (head boc)
@@ -177,24 +205,32 @@ def parseHeader (boc0 : Bytes) : M Header := do
   -- uint(len(boc)) < totCellsSize
   if !(hasAtLeast boc totCellsSize) then fail "not enough bytes for cells data" else
   if cellsCount > totCellsSize / 2 then fail "too many cells for this amount of cells data" else
-  -- Roots
-  let (rootList, boc) ← (do
-    if hasRootList then
-      if lenLt boc (mulI (toInt rootsCount) sizeBytes) then fail "not enough bytes for encoding root cells hashes" else
-      makeSlice szUint rootsCount
-      lift (readList (toInt rootsCount).toNat sizeBytes false boc)
-    else
-      if rootsCount ≠ 1 then fail "indexed boc must have exactly one root" else
-      alloc szUint
-      pure ([0], boc) : M (List Nat × Bytes))
-  -- Index
+  pure (⟨offsetBytes, cellsCount, rootsCount, absentNum, totCellsSize⟩, boc)
+
+open M in
+/-- parseBocHeader, part 3: the root list (generic magic) or the implicit root 0 (idx magics) -/
+def parseRoots (hasRootList : Bool) (sizeBytes rootsCount : Nat) (boc : Bytes) : M (List Nat × Bytes) := do
+  if hasRootList then
+    if lenLt boc (mulI (toInt rootsCount) sizeBytes) then fail "not enough bytes for encoding root cells hashes" else
+    makeSlice szUint rootsCount
+    lift (readList (toInt rootsCount).toNat sizeBytes false boc)
+  else
+    if rootsCount ≠ 1 then fail "indexed boc must have exactly one root" else
+    makeSlice szUint 1
+    pure ([0], boc)
+
+open M in
+/-- parseBocHeader, part 4: the index -/
+def parseIndex (hasIdx hasCache : Bool) (offsetBytes cellsCount : Nat) (boc : Bytes) : M (List Nat × Bytes) := do
   makeSlice szUint cellsCount
-  let (index, boc) ← (do
-    if hasIdx then
-      if lenLt boc (mulI offsetBytes (toInt cellsCount)) then fail "not enough bytes for index encoding" else
-      lift (readList (toInt cellsCount).toNat offsetBytes hasCache boc)
-    else pure ([], boc) : M (List Nat × Bytes))
-  -- Cells
+  if hasIdx then
+    if lenLt boc (mulI offsetBytes (toInt cellsCount)) then fail "not enough bytes for index encoding" else
+    lift (readList (toInt cellsCount).toNat offsetBytes hasCache boc)
+  else pure ([], boc)
+
+open M in
+/-- parseBocHeader, part 5: the cell data, the checksum, nothing may follow -/
+def parseTail (hasCrc : Bool) (totCellsSize : Nat) (body boc : Bytes) : M Bytes := do
   if lenLt boc (toInt totCellsSize) then fail "not enough bytes for cells data" else
   let cellsData ← lift (sliceTo boc totCellsSize)
   let boc ← lift (sliceFrom boc totCellsSize)
@@ -206,9 +242,18 @@ def parseHeader (boc0 : Bytes) : M Header := do
       lift (sliceFrom boc 4)
     else pure boc : M Bytes)
   if hasAtLeast boc 1 then fail "too much bytes in provided boc" else
-  pure { hasIdx := hasIdx, hasCrc := hasCrc, hasCache := hasCache, flags := flags, sizeBytes := sizeBytes,
-         cellCount := cellsCount, rootCount := rootsCount, absentCount := absentNum, totCellsSize := totCellsSize,
-         rootList := rootList, index := index, cellsData := cellsData }
+  pure cellsData
+
+/-- boc/boc.go parseBocHeader (repaired version) -/
+def parseHeader (boc0 : Bytes) : M Header := do
+  let (k, body, boc) ← parsePrefix boc0
+  let (c, boc) ← parseCounters k.sizeBytes boc
+  let (rootList, boc) ← parseRoots k.hasRootList k.sizeBytes c.rootsCount boc
+  let (index, boc) ← parseIndex k.hasIdx k.hasCache c.offsetBytes c.cellsCount boc
+  let cellsData ← parseTail k.hasCrc c.totCellsSize body boc
+  pure { hasIdx := k.hasIdx, hasCrc := k.hasCrc, hasCache := k.hasCache, flags := k.flags, sizeBytes := k.sizeBytes,
+         cellCount := c.cellsCount, rootCount := c.rootsCount, absentCount := c.absentNum,
+         totCellsSize := c.totCellsSize, rootList := rootList, index := index, cellsData := cellsData }
 
 /-! ### cells -/
 
